@@ -76,6 +76,9 @@ struct QHist {
     pushOkReturned++;
     // elements certainly inside = pushes returned - pops returned - pops that may be about to return
     long lower = (long)pushOkReturned - popOkReturned - popsInFlight;
+    if (lower > (long)capacity && getenv("HX_DEBUG"))
+      fprintf(stderr, "over-capacity: pushOk=%d popOk=%d inflight=%d tag=%d producer=%d step=%llu\n", pushOkReturned, popOkReturned,
+              popsInFlight, tag, producer, (unsigned long long)sim_step());
     if (lower > (long)capacity)
       fail("over-capacity", "at least %d elements held, capacity %d", (int)lower, (int)capacity);
   }
@@ -115,7 +118,7 @@ struct QHist {
 
 template <typename Ring>
 static void mpmcRun(const char* name) {
-  QHist& h = *new QHist();
+  QHist& h = immortal<QHist>();
   h.name = name;
   g_live = 0;
   {
@@ -196,11 +199,14 @@ static void mpmcRun(const char* name) {
               break;
             }
             case 1: {
+              // every call into the code under test first (each may be pre-empted in the "fine"
+              // variant), then the bookkeeping as one uninterrupted block
               auto r = ring.try_pop();
               got = (bool)r;
+              Elem copy = got ? r.value() : Elem();
               h.popsInFlight--;
               if (got)
-                h.onPop(r.value(), inv);
+                h.onPop(copy, inv);
               break;
             }
             default: {
@@ -590,7 +596,7 @@ static void vectorRun(const char* name) {
     sim_note("growers", nGrowers);
     sim_note("ops", opsEach);
     static const int kMaxIdx = 4096;
-    std::vector<int>& owner = *new std::vector<int>(kMaxIdx, -1); // index -> tag claimed
+    std::vector<int>& owner = immortal<std::vector<int>>(kMaxIdx, -1); // index -> tag claimed
     int totalGrowth = 0;
     int nextTag = 0;
     bool done = false;
@@ -742,7 +748,7 @@ static void wlArena() {
   sim_note("threads", nThreads);
   dispenso::ConcurrentObjectArena<Cell> arena(buffSize);
   static const int kMax = 2048;
-  std::vector<int>& owner = *new std::vector<int>(kMax, -1);
+  std::vector<int>& owner = immortal<std::vector<int>>(kMax, -1);
   int total = 0;
   int nextId = 0;
   std::vector<std::thread> threads;
